@@ -1014,6 +1014,11 @@ class DatasetWorld(object):
                 raise Skip("nothing to change")
             ds2 = ds.set_axis(V.label_array(new), axis=d, inplace=False)
             m2.relabel(d, new)
+        from dimarray import Dataset
+        if not isinstance(ds2, Dataset):
+            # nothing was returned to judge; the original is still checked below by the step loop
+            self.count("c13:fork_noresult")
+            raise Skip("%s(inplace=False) returned %s" % (how, type(ds2).__name__))
         # copies drop axes that no variable uses (they are rebuilt from the variables)
         for d in list(m2.unused):
             if d not in ds2.dims:
